@@ -17,6 +17,7 @@ SPEC = {
     "trusted_base": _TRUSTED,
     "assumptions": [
         "socket writes succeed; ReadJSON failing (close or undecodable frame) ends the connection",
+        "a wait of the harness that times out (20 s) is reported only if it times out again when the case is replayed once on a fresh connection; both events are counted in the histogram (harness:wait-timeout-*), the first one with the goroutines that were inside thunder",
         "the repairs C17-fix-1..4 are applied (the model is the code as repaired; the original handleMutate / closeSubscriptions / asynchronous close are kept as configuration flags with refutation witnesses)",
     ],
     "harness_timeout": {"quick": 600, "thorough": 3000},
